@@ -272,14 +272,10 @@ where
                 (
                     count + 1,
                     sum + val,
-                    Some(match min {
-                        Some(m) if m < val => m,
-                        _ => val,
-                    }),
-                    Some(match max {
-                        Some(m) if m > val => m,
-                        _ => val,
-                    }),
+                    // the same NaN-ignoring min/max as the reduce step below, so
+                    // that the result does not depend on how rayon splits the input
+                    Some(min.map_or(val, |m| m.min(val))),
+                    Some(max.map_or(val, |m| m.max(val))),
                 )
             },
         )
